@@ -127,7 +127,13 @@ func buildWorkflow(s *spec.Spec) (*sp.Workflow, map[string]*node) {
 		ps := ps
 		switch ps.Kind {
 		case spec.KCmd, spec.KGoFunc:
-			p := wf.NewProc(ps.Name, ps.Cmd)
+			// both documented constructors: the method, and the package-level function used by wrapper components
+			var p *sp.Process
+			if len(ps.Name)%3 == 1 {
+				p = sp.NewProc(wf, ps.Name, ps.Cmd)
+			} else {
+				p = wf.NewProc(ps.Name, ps.Cmd)
+			}
 			for _, o := range ps.Outs {
 				o := o
 				if o.Func != nil {
